@@ -169,14 +169,16 @@ pub fn run_case(env: &Env, ctx: &mut Ctx, idx: u64) {
     }
     let batch = if ctx.tier == Tier::Tiny { 2 } else { BATCH };
     for _ in 0..batch {
-        let (mut src, kind) = gen_input(env, &mut rng);
-        if ctx.tier == Tier::Tiny && src.len() > 120 {
-            let mut e = 120;
-            while !src.is_char_boundary(e) {
-                e -= 1;
+        let (src, kind) = if ctx.tier == Tier::Tiny {
+            let t = crate::workload::tiny_input(&mut rng).text;
+            match rng.below(3) {
+                0 => (t, "tiny"),
+                1 => (mutate::byte_mutate(&t, &mut rng), "tiny-bytemut"),
+                _ => (mutate::token_mutate(&t, &mut rng), "tiny-tokmut"),
             }
-            src.truncate(e);
-        }
+        } else {
+            gen_input(env, &mut rng)
+        };
         let cfg = rand_cfg(&mut rng, &dir);
         ctx.count("inputs", 1);
         ctx.count(&format!("kind:{}", kind), 1);
